@@ -48,11 +48,11 @@ let () =
       match w with
       | [] -> ()
       | ["reset"] -> st := init_state; print_string "RESET\n"
-      | ["yamlrt"] ->
+      | ["yamlrt"] | ["yamlrtf"] ->
         let y = yaml_export !st.st_root in
         let (r, ok) = yaml_import (yaml_rt_ideal y) NNull in
-        Printf.printf "%d 0 - %s %s\n" (if ok then 0 else -1) (digest !st.st_root) (digest r)
-      | ["yamltree"] -> Printf.printf "0 0 Y:%s %s -\n" (ydigest (yaml_export !st.st_root)) (digest !st.st_root)
+        Printf.printf "%d 0 T:%s %s %s\n" (if ok then 0 else -1) (digest r) (digest !st.st_root) (digest !st.st_aux)
+      | ["yamltree"] -> Printf.printf "0 0 Y:%s %s %s\n" (ydigest (yaml_export !st.st_root)) (digest !st.st_root) (digest !st.st_aux)
       | opn :: args ->
         let a i = unhex (List.nth args i) in
         let o = (match opn with
